@@ -1,7 +1,106 @@
 /-
-  Helper lemmas for property C06: uniqueness of round-to-nearest-even.
+  Helper lemmas for property C06: uniqueness of round-to-nearest-even
+  (`isNearestEven` is satisfied by at most one bit pattern).
 -/
 import RsjModel.Dec
 namespace Rsj.Dec
+
+theorem scaled_succ (b : Nat) : scaled b < scaled (b + 1) := by
+  unfold scaled
+  have hP : (2 : Nat) ^ 52 = 4503599627370496 := by decide
+  simp only [hP]
+  by_cases hfr : b % 4503599627370496 + 1 < 4503599627370496
+  · have h1 : (b + 1) / 4503599627370496 = b / 4503599627370496 := by omega
+    have h2 : (b + 1) % 4503599627370496 = b % 4503599627370496 + 1 := by omega
+    rw [h1, h2]
+    by_cases he : b / 4503599627370496 = 0
+    · simp only [he, if_true]; omega
+    · simp only [he, if_false]
+      exact Nat.mul_lt_mul_of_pos_right (by omega) (Nat.pow_pos (by omega))
+  · have h1 : (b + 1) / 4503599627370496 = b / 4503599627370496 + 1 := by omega
+    have h2 : (b + 1) % 4503599627370496 = 0 := by omega
+    have h3 : b % 4503599627370496 = 4503599627370495 := by omega
+    rw [h1, h2, h3]
+    simp only [Nat.add_eq_zero_iff, Nat.one_ne_zero, and_false, if_false, Nat.add_zero]
+    by_cases he : b / 4503599627370496 = 0
+    · simp only [he, if_true]; omega
+    · simp only [he, if_false]
+      rw [Nat.pow_succ]
+      generalize hQ : 2 ^ (b / 4503599627370496) = Q
+      have hQpos : 0 < Q := by rw [← hQ]; exact Nat.pow_pos (by omega)
+      omega
+
+theorem scaled_mono {a b : Nat} (h : a < b) : scaled a < scaled b := by
+  induction b with
+  | zero => omega
+  | succ b ih =>
+    by_cases hab : a = b
+    · subst hab; exact scaled_succ a
+    · exact Nat.lt_trans (ih (by omega)) (scaled_succ b)
+
+theorem midSum_mono {a b : Nat} (h : a < b) : midSum a < midSum b := by
+  unfold midSum
+  have h1 := scaled_mono h
+  have h2 : scaled (a + 1) < scaled (b + 1) := scaled_mono (by omega)
+  omega
+
+theorem midSum_mono_le {a b : Nat} (h : a ≤ b) : midSum a ≤ midSum b := by
+  by_cases hab : a = b
+  · subst hab; exact Nat.le_refl _
+  · exact Nat.le_of_lt (midSum_mono (by omega))
+
+/-- The two bounds contained in `isNearestEven`. -/
+theorem isNearestEven_bounds {num den b : Nat} (h : isNearestEven num den b = true) :
+    0 < den ∧ b ≤ INF_BITS ∧
+    (b ≠ 0 → midSum (b - 1) * den ≤ 2 * (num * 2 ^ 1075) ∧
+       (b % 2 = 1 → midSum (b - 1) * den < 2 * (num * 2 ^ 1075))) ∧
+    (b ≠ INF_BITS → 2 * (num * 2 ^ 1075) ≤ midSum b * den ∧
+       (b % 2 = 1 → 2 * (num * 2 ^ 1075) < midSum b * den)) := by
+  unfold isNearestEven at h
+  simp only [Bool.and_eq_true, decide_eq_true_eq, Bool.or_eq_true, beq_iff_eq] at h
+  obtain ⟨⟨hden, hb⟩, hlo, hhi⟩ := h
+  refine ⟨hden, hb, ?_, ?_⟩
+  · intro hb0
+    rcases hlo with hlo | hlo
+    · exact absurd hlo hb0
+    · by_cases hev : b % 2 = 0
+      · simp only [hev, if_true, decide_eq_true_eq] at hlo
+        exact ⟨hlo, fun h1 => by omega⟩
+      · simp only [hev, if_false, decide_eq_true_eq] at hlo
+        exact ⟨Nat.le_of_lt hlo, fun _ => hlo⟩
+  · intro hbi
+    rcases hhi with hhi | hhi
+    · exact absurd hhi hbi
+    · by_cases hev : b % 2 = 0
+      · simp only [hev, if_true, decide_eq_true_eq] at hhi
+        exact ⟨hhi, fun h1 => by omega⟩
+      · simp only [hev, if_false, decide_eq_true_eq] at hhi
+        exact ⟨Nat.le_of_lt hhi, fun _ => hhi⟩
+
+theorem nearestEven_lt_absurd {num den b1 b2 : Nat}
+    (h1 : isNearestEven num den b1 = true) (h2 : isNearestEven num den b2 = true)
+    (hlt : b1 < b2) : False := by
+  obtain ⟨hden, _, _, hhi1⟩ := isNearestEven_bounds h1
+  obtain ⟨_, hb2, hlo2, _⟩ := isNearestEven_bounds h2
+  have ⟨hA, hA'⟩ := hhi1 (by omega)
+  have ⟨hB, hB'⟩ := hlo2 (by omega)
+  have hle : midSum b1 * den ≤ midSum (b2 - 1) * den :=
+    Nat.mul_le_mul_right _ (midSum_mono_le (by omega))
+  generalize 2 * (num * 2 ^ 1075) = N at *
+  by_cases ho1 : b1 % 2 = 1
+  · have := hA' ho1; omega
+  · by_cases ho2 : b2 % 2 = 1
+    · have := hB' ho2; omega
+    · -- both even, hence b1 < b2 - 1 and the midpoints differ strictly
+      have hlt' : midSum b1 < midSum (b2 - 1) := midSum_mono (by omega)
+      have : midSum b1 * den < midSum (b2 - 1) * den := Nat.mul_lt_mul_of_pos_right hlt' hden
+      omega
+
+theorem nearestEven_unique {num den b1 b2 : Nat}
+    (h1 : isNearestEven num den b1 = true) (h2 : isNearestEven num den b2 = true) : b1 = b2 := by
+  rcases Nat.lt_trichotomy b1 b2 with h | h | h
+  · exact (nearestEven_lt_absurd h1 h2 h).elim
+  · exact h
+  · exact (nearestEven_lt_absurd h2 h1 h).elim
 
 end Rsj.Dec
